@@ -3,8 +3,9 @@ Model of `intervalutils.split_byte_interval` and `intervalutils.join_byte_interv
 
 A byte interval: declared size, initialized contents (a prefix of the bytes), blocks
 (id, offset, size, kind) and one offset-keyed table per aux table / the symbolic expressions
-(`anns`: table index, offset, value).  Blocks and entries are kept sorted by offset, which is
-what `sorted(interval.blocks, key=offset)` / `sorted(table.items())` make of them.
+(`anns`: table index, offset, value).  Blocks are kept sorted by `_block_order_key` = (offset,
+size, is data) and entries by offset, which is what `sorted(interval.blocks, key=…)` /
+`sorted(table.items())` make of them.
 -/
 namespace GtirbVerif.Intervals
 
@@ -29,41 +30,45 @@ structure Iv where
   anns : List Ann
   deriving Repr, DecidableEq, Inhabited
 
-/-- group overlapping blocks (blocks sorted by offset): returns the begin of every group -/
-def groupBegins : List Blk → Option (Nat × Nat) → List Nat
-  | [], _ => []
-  | b :: bs, none => b.off :: groupBegins bs (some (b.off, b.off + b.size))
-  | b :: bs, some (g, e) =>
-    if e ≤ b.off then b.off :: groupBegins bs (some (b.off, b.off + b.size))
-    else groupBegins bs (some (g, max e (b.off + b.size)))
+/-- group overlapping blocks (blocks in `_block_order_key` order): consecutive runs; a block
+joins the current group unless the group's end is at or before its offset.
+`cur` = the current group (reversed), `e` = its end -/
+def groupRuns : List Blk → List Blk → Nat → List (List Blk)
+  | [], cur, _ => if cur.isEmpty then [] else [cur.reverse]
+  | b :: bs, cur, e =>
+    if cur.isEmpty then groupRuns bs [b] (b.off + b.size)
+    else if e ≤ b.off then cur.reverse :: groupRuns bs [b] (b.off + b.size)
+    else groupRuns bs (b :: cur) (max e (b.off + b.size))
 
-/-- the cut points: the begin of every group but the first -/
-def cuts (iv : Iv) : List Nat := (groupBegins iv.blocks none).drop 1
+def groups (iv : Iv) : List (List Blk) := groupRuns iv.blocks [] 0
+
+def beginOf (g : List Blk) : Nat := (g.head?.map (·.off)).getD 0
 
 /-- one iteration of the loop (for one group, taken from the back): the new interval holding
-everything from `c` on, and what stays -/
-def cutOne (iv : Iv) (c : Nat) : Iv × Iv :=
+the group `g` and everything from its begin on, and what stays -/
+def cutOne (iv : Iv) (g : List Blk) : Iv × Iv :=
+  let c := beginOf g
   let suffix : Iv :=
     { addr := iv.addr.map (· + c),
       size := iv.size - c,
       contents := iv.contents.drop c,
-      blocks := (iv.blocks.filter (fun b => b.off ≥ c)).map (fun b => { b with off := b.off - c }),
+      blocks := g.map (fun b => { b with off := b.off - c }),
       anns := (iv.anns.filter (fun a => a.off ≥ c)).map (fun a => { a with off := a.off - c }) }
   let pre : Iv :=
     { addr := iv.addr,
       size := min iv.size c,
       contents := iv.contents.take c,
-      blocks := iv.blocks.filter (fun b => b.off < c),
+      blocks := iv.blocks.take (iv.blocks.length - g.length),
       anns := iv.anns.filter (fun a => a.off < c) }
   (pre, suffix)
 
-/-- process the cut points from the last to the first -/
-def splitAt (iv : Iv) : List Nat → List Iv → List Iv
+/-- process the groups from the last to the second -/
+def splitAt (iv : Iv) : List (List Blk) → List Iv → List Iv
   | [], acc => iv :: acc
-  | c :: cs, acc => splitAt (cutOne iv c).1 cs ((cutOne iv c).2 :: acc)
+  | g :: gs, acc => splitAt (cutOne iv g).1 gs ((cutOne iv g).2 :: acc)
 
 /-- `split_byte_interval(interval)` -/
-def split (iv : Iv) : List Iv := splitAt iv (cuts iv).reverse []
+def split (iv : Iv) : List Iv := splitAt iv ((groups iv).drop 1).reverse []
 
 /-! ### join -/
 
@@ -82,12 +87,16 @@ inductive JoinErr
   | padding (why : String)
   deriving Repr, DecidableEq
 
-/-- `max(blocks, key=offset)`: the first block with the largest offset -/
+/-- `_block_order_key`: (offset, size, is data) -/
+def keyLt (a b : Blk) : Bool :=
+  a.off < b.off || (a.off == b.off && (a.size < b.size || (a.size == b.size && (a.isCode && !b.isCode))))
+
+/-- `max(blocks, key=_block_order_key)`: the first block with the largest key -/
 def lastBlock (bs : List Blk) : Option Blk :=
   bs.foldl (fun (acc : Option Blk) b =>
     match acc with
     | none => some b
-    | some a => if b.off > a.off then some b else some a) none
+    | some a => if keyLt a b then some b else some a) none
 
 structure JoinState where
   dest : Iv
@@ -124,6 +133,7 @@ def insertPadding (st : JoinState) (nop : List Nat) (size : Nat) : Except JoinEr
 /-- alignment wanted for the interval being appended: of its first aligned block, else of the
 interval itself; returns (offset of that node inside the interval, boundary) -/
 def wantedAlignment (alignB : Nat → Option Nat) (alignI : Option Nat) (iv : Iv) : Nat × Nat :=
+  -- `min(aligned blocks, key=_block_order_key)`: the blocks are listed in that order
   match iv.blocks.find? (fun b => (alignB b.id).isSome) with
   | some b => (b.off, (alignB b.id).getD 1)
   | none => (0, alignI.getD 1)
